@@ -505,6 +505,8 @@ def main():
                 or w["signature"] in ("process-dies", "data-race", "same-codec-refused"))
     witnesses = [w for r in stream_res for w in r.get("witnesses", []) if relevant(w)]
     open_sigs = {(k["property"], k["signature"]) for k in known.get("open", [])}
+    foreign = [w for r in stream_res for w in r.get("witnesses", [])
+               if not relevant(w) and (w["property"], w["signature"]) not in open_sigs]
     new, seen_known = [], {}
     for w in witnesses:
         if (pid, w["signature"]) in open_sigs:
@@ -521,6 +523,17 @@ def main():
         stream = next((r["name"] for r in stream_res if w in r.get("witnesses", [])), None)
         replay_path = write_replay(pid, {"property": pid, "kind": "witness", "stream": stream, "seed": seed,
                                          "signature": w["signature"], "what": w["what"], "input": w["replay"]})
+        print("VIOLATION property=%s replay=%s" % (pid, replay_path))
+    elif problems and foreign:
+        # the proof or the tie broke, and an oracle filed under ANOTHER property saw the
+        # implementation misbehave on a concrete input of this run: that input is the replay
+        violations = 1
+        w = foreign[0]
+        stream = next((r["name"] for r in stream_res if w in r.get("witnesses", [])), None)
+        replay_path = write_replay(pid, {"property": pid, "kind": "witness", "stream": stream, "seed": seed,
+                                         "signature": w["signature"], "what": w["what"], "input": w["replay"],
+                                         "oracle_filed_under": w["property"],
+                                         "all_problems": [p["what"] for p in problems]})
         print("VIOLATION property=%s replay=%s" % (pid, replay_path))
     elif problems:
         violations = 1
